@@ -299,3 +299,30 @@ impl PartialOrd for Fp {
     w("  #[verifier::external_body] pub fn std_atan2(x: Fp, o: Fp) -> (r: Fp) ensures r@ == atan2_r(x@, o@) { unimplemented!() }\n")
     w("}\n")
     return "".join(o)
+
+
+def generate_fmt(with_deriv):
+    """model of core::fmt::Formatter for rule R6: a ghost trace of output pieces.  Literal text is identified by the
+    FNV-1a 64 hash of its UTF-8 bytes (computed by the extractor); float printing itself is outside the model."""
+    part = "Part(Derivative, u64), " if with_deriv else ""
+    s = f"""
+// ===================== formatter model (C18, rule R6) =====================
+pub enum Piece {{ Lit(u64), Val(real), {part}}}
+#[verifier::external_body] pub struct Fmt {{ v: u8 }}
+pub struct FmtResult {{ pub ok: bool }}
+pub fn fmt_ok() -> (r: FmtResult) {{ FmtResult {{ ok: true }} }}
+impl Fmt {{
+    pub uninterp spec fn trace(&self) -> Seq<Piece>;
+    #[verifier::external_body] pub fn lit(&mut self, id: u64) ensures final(self).trace() == old(self).trace().push(Piece::Lit(id)) {{ unimplemented!() }}
+    #[verifier::external_body] pub fn disp(&mut self, x: &Sc) ensures final(self).trace() == old(self).trace().push(Piece::Val(x@)) {{ unimplemented!() }}
+}}
+"""
+    if with_deriv:
+        s += """
+pub open spec fn part_trace(t: Seq<Piece>, d: Derivative, sym: u64) -> Seq<Piece> { if d.present() { t.push(Piece::Lit(LIT_PLUS)).push(Piece::Part(d, sym)) } else { t } }
+impl Derivative {
+    // assumed: Derivative::fmt prints nothing for an absent part and " + " <entries> <symbol> for a present one (its shape match and matrix rendering are outside the model)
+    #[verifier::external_body] pub fn fmt(&self, f: &mut Fmt, symbol: u64) -> (r: FmtResult) ensures final(f).trace() == part_trace(old(f).trace(), *self, symbol) { unimplemented!() }
+}
+""".replace("LIT_PLUS", "14090479106711026708u64")
+    return s
